@@ -143,12 +143,12 @@ func loadCold(dir, scenario string, limit int) (cases []*coldCase, err error) {
 			if !v.Accept || len(v.Text) == 0 {
 				return nil
 			}
-			in, err := urlJoin(v.Input)
+			in, err := urlJoin(expandRuns(v.Input, 3))
 			if err != nil {
 				return err
 			}
-			text, _ := urlJoin(v.Text)
-			js, _ := urlJoin(v.JHTML)
+			text, _ := urlJoin(expandRuns(v.Text, 3))
+			js, _ := urlJoin(expandRuns(v.JHTML, 3))
 			cases = append(cases, &coldCase{kind: "url", text: in, want: text, wantJS: js})
 			return nil
 		})
